@@ -1173,9 +1173,10 @@ DLLIMPORT cfg_value_t *cfg_setopt(cfg_t *cfg, cfg_opt_t *opt, const char *value)
 				cfg_free(val->section);
 			}
 			val->section = sec;
-		}
-		if (!is_set(CFGF_DEFINIT, opt->flags))
+			/* a new instance always starts from the declared defaults,
+			 * also the one that replaces a removed single section */
 			cfg_init_defaults(val->section);
+		}
 		break;
 
 	case CFGT_BOOL:
